@@ -20,6 +20,16 @@ IDENTITY_ADAPTERS = {
 }
 
 
+import re as _re
+_gen = _re.compile(r"::<[^<>]*(?:<[^<>]*>[^<>]*)*>")
+
+
+def _suffix2(path):
+    p = _gen.sub("", path)
+    parts = p.split("::")
+    return "::".join(parts[-2:])
+
+
 def place_fields(place):
     return tuple(e[2] for e in place.get("p", []) if e[0] == "f")
 
@@ -113,7 +123,11 @@ class Prov:
         for cand in (d.get("def"), d.get("resolved")):
             if cand in self.adapters:
                 return True
-        return False
+        # path-insensitive match on `<Type or Trait>::<method>` (std re-export paths differ from definition paths)
+        if not hasattr(self, "_suffixes"):
+            self._suffixes = {_suffix2(a) for a in self.adapters}
+        dd = d.get("def")
+        return bool(dd) and _suffix2(dd) in self._suffixes and (dd.startswith("core::") or dd.startswith("alloc::") or dd.startswith("std::") or dd.startswith("smallvec::"))
 
     def operand(self, op, rest=(), _seen=None):
         c = op_const(op)
